@@ -1,0 +1,60 @@
+//go:build verif
+
+package swap
+
+import (
+	"math/big"
+
+	"github.com/MinterTeam/minter-go-node/coreV2/types"
+)
+
+// Verification hooks for limit orders (build tag `verif`).  They only observe, or drive functions that are
+// reachable from transactions anyway, on a stand-alone SwapV2.
+
+// VerifSetReserves moves the reserves of a pair to (r0, r1) through `update`, so the pair is marked dirty and
+// a following Commit writes it.  Used to build pools whose reserves could not be produced by `Create` directly
+// (extreme ratios, tiny reserves).
+func VerifSetReserves(p *PairV2, r0, r1 *big.Int) {
+	c0, c1 := p.Reserves()
+	p.update(new(big.Int).Sub(r0, c0), new(big.Int).Sub(r1, c1))
+}
+
+// VerifRawAddAmounts is `calculateAddAmountsForPrice` without the price comparison of the public wrapper.
+func VerifRawAddAmounts(p *PairV2, price *big.Float) (*big.Int, *big.Int) {
+	return p.calculateAddAmountsForPrice(price)
+}
+
+// VerifSellOrderIDs returns a copy of the cached best-first id list of the pair in its current orientation
+// (a trailing 0 means "everything is loaded").
+func VerifSellOrderIDs(p *PairV2) []uint32 {
+	p.lockOrders.Lock()
+	defer p.lockOrders.Unlock()
+	ids := p.sellOrderIDs()
+	return append([]uint32(nil), ids...)
+}
+
+// VerifPricePath is the on-disk index key of an order (`pricePath`) for the pair of coins (1, 2).
+func VerifPricePath(price *big.Float, id uint32, isSale bool) (key []byte, panicked bool) {
+	defer func() {
+		if r := recover(); r != nil {
+			key, panicked = nil, true
+		}
+	}()
+	return pricePath(PairKey{Coin0: types.CoinID(1), Coin1: types.CoinID(2)}, price, id, isSale), false
+}
+
+// VerifSortPrice is the sort key of an order (`sortPrice`, price in the sorted orientation of the pair).
+func VerifSortPrice(l *Limit) *big.Float { return l.sortPrice() }
+
+// VerifIsSorted tells whether the pair is in the canonical orientation (coin0 < coin1).
+func VerifIsSorted(p *PairV2) bool { return p.isSorted() }
+
+// VerifOrderState reports the bookkeeping flags of an order id on a pair.
+func VerifOrderState(p *PairV2, id uint32) (dirty, deleted, unsorted bool) {
+	p.lockOrders.Lock()
+	defer p.lockOrders.Unlock()
+	return p.isDirtyOrder(id), p.isOrderAlreadyUsed(id), p.isUnsortedSellOrder(id)
+}
+
+// VerifMinimumOrderVolume is the dust threshold.
+func VerifMinimumOrderVolume() int64 { return minimumOrderVolume }
